@@ -67,6 +67,7 @@ type PropInfo struct {
 	UseRace bool   // the race detector is one of this property's oracles
 	Level   string // exploration | fault_enumeration
 	Rule    string
+	Enum    func(tier string) int // number of leading run indices that enumerate a finite family
 	Assume  []string
 }
 
